@@ -2,6 +2,7 @@
 from __future__ import annotations
 
 import os
+import time
 import re
 import sys
 import types
@@ -331,6 +332,10 @@ M_PRELUDE = [
     "def ser_float(v) -> float:\n    return 0.5",
     "def ser_date(v) -> datetime.date:\n    return datetime.date.min",
     "def ser_any(v):\n    return v",
+    "def ser_lstr(v) -> List[str]:\n    return []",
+    "def ser_dint(v) -> Dict[str, int]:\n    return {}",
+    "def ser_tfs(v) -> Tuple[float, str]:\n    return (0.5, '')",
+    "def ser_obool(v) -> Optional[bool]:\n    return None",
     "class StratS(SerializationStrategy):\n    def serialize(self, v) -> str:\n        return str(v)\n    def deserialize(self, v):\n        return v",
     "class ME1(enum.Enum):\n    A = 'a'\n    B = 2",
     "class ME0(enum.Enum):\n    pass",
@@ -483,6 +488,9 @@ def m_type(r, depth, avail, allow_any=True, asd=False) -> MT:
 # replacement types of overrides: python spelling of the serialize callable, Coq ov term, key of the replacement type
 OV_RET = [("ser_str", "ORet (Some TStr)", "str"), ("ser_int", "ORet (Some TInt)", "int"), ("ser_bool", "ORet (Some TBool)", "bool"),
           ("ser_float", "ORet (Some TFloat)", "float"), ("ser_date", 'ORet (Some (TLeaf "string" (Some "date") None))', None)]
+# (chains) replacement types that are containers: python callable, Coq ov term, scalar keys mentioned
+OV_CONT = [("ser_lstr", "ORet (Some (TList TStr))", set()), ("ser_dint", "ORet (Some (TDict TInt))", {"int"}),
+           ("ser_tfs", "ORet (Some (TTuple [TFloat; TStr]))", {"float"}), ("ser_obool", "ORet (Some (TUnion [TBool; TNone]))", {"bool"})]
 PYKEY = {"int": "int", "float": "float", "bool": "bool", "Pt": "Pt", "list": "list", "dict": "dict"}
 COQKEY = {"int": "TInt", "float": "TFloat", "bool": "TBool", "Pt": 'TOpaque "Pt"'}
 
@@ -495,6 +503,9 @@ def keys_of(coq_term: str) -> set:
     return ks
 
 
+_CHAIN = [False]
+
+
 def m_tables(r, origin_ok=True):
     """Config.dialect / Config.serialization_strategy of one class: (python lines for the dialect class body, python dict text for
     Config, Coq dial table, Coq conf table, overridden keys, keys with a serializing override).  "str" is never overridden (it is
@@ -504,10 +515,19 @@ def m_tables(r, origin_ok=True):
     K = r.sample(["int", "float", "bool", "Pt"], r.randrange(1, 4))
     dial, conf = {}, {}
     serializing = set()
-    for k in K:
+    # (chains) the replacement type of a key may carry a LATER key of K (or be the overridden type itself: the lookup stops there),
+    # and may be a container over later keys: the implementation looks the replacement up again (model: SchemaChain.rchain).
+    # Replacements that lead back to an earlier key never stop (known finding table-override-recursion): not generated here.
+    chain = r.random() < 0.4
+    _CHAIN[0] = chain
+    for ki, k in enumerate(K):
         for tab in r.sample([dial, conf], r.randrange(1, 3)):
             x = r.random()
             cands = [o for o in OV_RET if o[2] not in K]
+            if chain:
+                later = set(K[ki + 1:])
+                cands = [o for o in OV_RET if o[2] not in K or o[2] in later or o[2] == k]
+                cands += [(fn, coq, None) for fn, coq, ks in OV_CONT if not (ks & (set(K) - later))]
             if k == "Pt" or x < 0.55:
                 fn, coq, _ = r.choice(cands)
                 form = r.choice(["dict", "dict", "cls"]) if fn == "ser_str" else "dict"
@@ -558,6 +578,7 @@ def m_family(r):
         refs[nm] = set()
         used_alias = set()
         cfg_aliases = {}
+        _CHAIN[0] = False
         tabs = m_tables(r, origin_ok=not cyclic)
         over = tabs[2] if tabs else set()
         _CUR_OVER.clear()
@@ -612,14 +633,20 @@ def m_family(r):
             # field-level override: at most one of "serialize" / "serialization_strategy"; its replacement type carries no overridden key
             f_ser = f_strat = None
             if r.random() < 0.18 and not (cyclic and j == 0 and i == n - 1):
-                cands = [o for o in OV_RET if o[2] not in over]
+                # (field-override-once fix) a field-level option replaces the field's type once: the replacement may be a container,
+                # and an unannotated strategy yields Any
+                cands = [o for o in OV_RET + [("ser_lstr", "ORet (Some (TList TStr))", "list")] if o[2] not in over]
+                if _CHAIN[0] and tabs and not (is_final and "TAnn" in t.coq):
+                    # (chains) the replacement of a field-level option is looked up in the tables of the class (never in the field's
+                    # options again): any replacement type, also one that carries an overridden key or is the field type itself
+                    cands = OV_RET + [(fn, coq, None) for fn, coq, _ in OV_CONT]
                 if r.random() < 0.5:
                     f_ser = r.choice([("pass_through", "OPass"), ("str", "OBasic TStr"), ("bool", "OBasic TBool"), ("ser_any", "ORet None")]
                                      + [(fn, coq) for fn, coq, _ in cands])
                     if f_ser[0] in ("str",) and "str" in over:
                         f_ser = ("pass_through", "OPass")
                 else:
-                    f_strat = r.choice([("pass_through", "OPass"), ('{"deserialize": ser_any}', "ODeser")]
+                    f_strat = r.choice([("pass_through", "OPass"), ('{"deserialize": ser_any}', "ODeser"), ('{"serialize": ser_any}', "ORet None")]
                                        + [('{"serialize": %s}' % fn, coq) for fn, coq, _ in cands])
             passes = (f_ser or f_strat or ("", ""))[1] in ("OPass", "ODeser")
             if 'TOpaque "Pt"' in t.coq and (f_ser or f_strat) and passes and (f_ser or f_strat)[1] == "OPass":
@@ -824,8 +851,20 @@ def m_cases(ctx: vlib.Ctx, n: int):
     return cases, descr
 
 
+def _bad_idx(*a, **kw):
+    """vlib.coq_bad_idx, run a second time when Coq did not answer at all (no `Error` in its output: the coqc process was killed,
+    e.g. by the machine's OOM killer, or hit its timeout under load).  A mismatch is a list of indices, never None: a retry cannot
+    hide one; a model that does not build reports its Coq error and is not retried."""
+    bad, log = vlib.coq_bad_idx(*a, **kw)
+    if bad is None and "Error" not in (log or ""):
+        time.sleep(5)
+        bad, log2 = vlib.coq_bad_idx(*a, **kw)
+        log = (log or "") + "\n[retried once after an empty / killed coqc]\n" + (log2 or "")
+    return bad, log
+
+
 def coq_part(ctx: vlib.Ctx):
-    br = ctx.theorems("props/C20_schema.vo", THEOREMS + RT_THEOREMS + ["C20_override_noop", "C20_override_covered", "C20_override_origin_key", "C20_default_value_is_ref_enc", "C20_default_prerendered", "C20_default_scalars"], kernels=["K9"])
+    br = ctx.theorems("props/C20_schema.vo", THEOREMS + RT_THEOREMS + ["C20_override_noop", "C20_override_covered", "C20_override_origin_key", "C20_chain_mono", "C20_chain_total_partial", "C20_chain_total_refuted", "C20_chain_cycle_diverges", "C20_chain_agrees_flat", "C20_chain_covered", "C20_default_value_is_ref_enc", "C20_default_prerendered", "C20_default_scalars"], kernels=["K9"])
     if br.ok and not ctx.quick():
         rc, out, _ = vlib.run(["timeout", "900", "coqchk", "-silent", "-o"] + vlib.COQ_FLAGS[:9] + ["VerifProps.C20_schema"],
                               cwd=vlib.COQ, timeout=930)
@@ -849,7 +888,7 @@ def coq_part(ctx: vlib.Ctx):
         return
     # (T) validation
     cases, descr = k9_cases(ctx, ctx.budget(700, 1500))
-    bad, log = vlib.coq_bad_idx(f"c20_k9_{ctx.seed}_{os.getpid()}", "PyK_schema SchemaGen K9Proofs SchemaCorr", "From VerifGen Require Import K9.", "", cases,
+    bad, log = _bad_idx(f"c20_k9_{ctx.seed}_{os.getpid()}", "PyK_schema SchemaGen K9Proofs SchemaCorr", "From VerifGen Require Import K9.", "", cases,
                                 "k9_ok", "k9case", shard=300, needs=["theories/SchemaCorr.vo"])
     if bad is None:
         ctx.correspondence("K9-translation-vs-python", len(cases), -1, log)
@@ -861,7 +900,7 @@ def coq_part(ctx: vlib.Ctx):
     ctx.count(n=len(cases))
     # (M) model vs implementation
     cases, descr = m_cases(ctx, ctx.budget(250, 2500))
-    bad, log = vlib.coq_bad_idx(f"c20_model_{ctx.seed}_{os.getpid()}", "PyK_schema SchemaGen K9Proofs SchemaCorr", "From VerifGen Require Import K9.", "", cases,
+    bad, log = _bad_idx(f"c20_model_{ctx.seed}_{os.getpid()}", "PyK_schema SchemaGen K9Proofs SchemaCorr", "From VerifGen Require Import K9.", "", cases,
                                 "corr_ok", "mcase", shard=125, needs=["theories/SchemaCorr.vo"])
     if bad is None:
         ctx.correspondence("schema-model-vs-build_json_schema", len(cases), -1, log)
@@ -870,6 +909,13 @@ def coq_part(ctx: vlib.Ctx):
         ctx.correspondence("schema-model-vs-build_json_schema", len(cases), len(bad), str([descr[i] for i in bad[:3]])[:2800])
         if bad:
             ctx.not_shown("correspondence schema-model-vs-build_json_schema", str([descr[i] for i in bad[:3]])[:2800])
+        # how many of these cases lie outside the one-step fragment of overridden serialization (chains of replacements)
+        chained, _ = _bad_idx(f"c20_model_{ctx.seed}_{os.getpid()}_ch", "PyK_schema SchemaGen K9Proofs SchemaCorr", "From VerifGen Require Import K9.", "",
+                                      cases, "fun c => negb (corr_chained c)", "mcase", shard=125, needs=["theories/SchemaCorr.vo"])
+        ctx.notes.append(f"model correspondence: {len(chained) if chained is not None else '?'} of {len(cases)} class tables with a chain of replacements "
+                         "(a replacement type that carries an overridden key); the others are checked against BOTH digests (one-step and chain)")
+        ctx.hist("model_override", "chained", len(chained or []))
+        ctx.hist("model_override", "one-step-or-none", len(cases) - len(chained or []))
     ctx.count(n=len(cases))
     for fn in os.listdir(vlib.CASES):
         if fn.startswith((f"c20_k9_{ctx.seed}_{os.getpid()}", f"c20_model_{ctx.seed}_{os.getpid()}", f".c20_k9_{ctx.seed}_{os.getpid()}", f".c20_model_{ctx.seed}_{os.getpid()}")):
@@ -881,7 +927,7 @@ def coq_part(ctx: vlib.Ctx):
     real_docs = ctx.coverage.pop("_real_docs", [])
     rcases, rdescr = rt_cases(ctx, real_docs[: ctx.budget(300, 2000)], ctx.budget(400, 3000))
     rname = f"c20_rt_{ctx.seed}_{os.getpid()}"
-    rbad, rlog = vlib.coq_bad_idx(rname, "PyK_schema SchemaGen K9Proofs SchemaRoundtrip SchemaCorr", "From VerifGen Require Import K9.", "", rcases,
+    rbad, rlog = _bad_idx(rname, "PyK_schema SchemaGen K9Proofs SchemaRoundtrip SchemaCorr", "From VerifGen Require Import K9.", "", rcases,
                                   "rt_ok", "js * string", shard=250, needs=["theories/SchemaCorr.vo"])
     if rbad is None:
         ctx.correspondence("roundtrip-model-vs-JSONSchema", len(rcases), -1, rlog)
@@ -890,7 +936,7 @@ def coq_part(ctx: vlib.Ctx):
         ctx.correspondence("roundtrip-model-vs-JSONSchema", len(rcases), len(rbad), str([rdescr[i] for i in rbad[:4]])[:2500])
         if rbad:
             ctx.not_shown("correspondence roundtrip-model-vs-JSONSchema", str([rdescr[i] for i in rbad[:4]])[:2500])
-        out, _ = vlib.coq_bad_idx(rname + "o", "PyK_schema SchemaGen K9Proofs SchemaRoundtrip SchemaCorr", "From VerifGen Require Import K9.", "", rcases,
+        out, _ = _bad_idx(rname + "o", "PyK_schema SchemaGen K9Proofs SchemaRoundtrip SchemaCorr", "From VerifGen Require Import K9.", "", rcases,
                                   "rt_out", "js * string", shard=250, needs=["theories/SchemaCorr.vo"])
         ctx.notes.append(f"round trip correspondence: {len(rcases)} documents ({min(len(real_docs), ctx.budget(300, 2000))} emitted by the implementation), "
                          f"{len(out or [])} outside the modelled value domain (no claim), {sum(1 for d in rdescr if d['expected'] == 'ERR')} with from_dict raising")
